@@ -24,7 +24,7 @@ LEVEL_TEXT = ('A state is the full recursive snapshot (path, type, size, hash) o
 LEVEL_NOTE = ('trees beyond the menu are not explored; of the non-regular entries only a dangling symbolic link is included (a '
               'FIFO would block every reading mode); --clean ordering is C12')
 RULE = ('initial states = all subsets of {T1_50000001, T2_50000002, T3_50000002.bak, other.txt, archive/T4_50000004, '
-        'archive/T5_50000001, 50000001/ (directory), T6_00500A07 (id with leading zeros)}; transitions = 53 command templates; BFS to depth 2 (quick) or 3 '
+        'archive/T5_50000001, 50000001/ (directory), T6_00500A07 (id with leading zeros)}; transitions = 56 command templates; BFS to depth 2 (quick) or 3 '
         '(thorough) with snapshot deduplication. Non-trivial: transition whose model effect is not the identity, or any '
         'transition from a non-initial state; distinct by (state, command).')
 ASSUMPTIONS = ['which of several files containing the id --delete removes is not fixed']
@@ -51,6 +51,8 @@ COMMANDS = [
     ['--src', 'BD8D', '-c'], ['--bmc-id', '2', '-c'], ['--src-exclude', '@exclude.txt', '-c'],
     ['-j', '-o', '@nodir'], ['-j', '-c', '-E', '-o', '@nodir'], ['-j', '-o', '@pels/T1_50000001'], ['-j', '-c', '-E', '-o', '@exclude.txt'],
     ['-D'], ['-D', '-e', '.bak'], ['-j', '-c', '-E', '-o', '@out'], ['-f', '@pels/T2_50000002', '-c'], ['-l', '-P'],
+    # ids of the wrong length whose digits occur in file names: with the 0x prefix making up the 8 characters, 9 digits, 7 + prefix
+    ['-d', '0x500000'], ['-d', '0X0000001'], ['-d', '500000010'],
 ]
 
 
